@@ -15,6 +15,7 @@ LISTS = {
     'V2': f'u16, {A}<usize,8>, {V}<{A}<u32,16>>, u8, {A}<u32,4>',
     'V3': f'usize, {V}<u8>, {A}<usize,8>, {V}<{A}<u16,4>>, u8',
     'M1': f'{F}<u16>, u32, {A}<usize,8>, {V}<{A}<u32,8>>',
+    'V4': f'usize, {V}<u8>, {A}<u32,8>',        # span whose length differences hide in the padding in front of an aligned field
     'N1': f'{F}<Tr>, Tr',
     'N2': f'{A}<usize,8>, {V}<Tr>, Tr',
     'N3': f'u32, {F}<Tr>, u16, Tr, u8',
@@ -94,6 +95,7 @@ def attribute_seq(aid):
     if loc in (7, 8, 95): return 'C02'
     if loc == 9: return 'C18'
     if 90 <= loc <= 92: return 'C16'
+    if loc in (93, 94): return 'C05'
     if loc == 96: return 'C03'
     if loc == 97: return 'C06'
     if loc == 98: return 'C04'
@@ -119,7 +121,9 @@ def attribute(ob, viol):
         return {p}
     out = {KIND_PROP.get(k, ob.get('prop'))}
     if k == 'LEDGER' and 'unequal allocator' in viol['msg']: out.add('C08')
-    if k in UB_KINDS: out.add(ob.get('owner') or OWNER.get(ob['harness'], ob.get('prop')))
+    if k in UB_KINDS:
+        out.add(ob.get('owner') or OWNER.get(ob['harness'], ob.get('prop')))
+        out.add(ob.get('prop'))     # undefined behaviour inside an operation the property chose to drive voids its claim
     return out
 
 
@@ -255,6 +259,17 @@ def pool_layout(prop, tier, seed, reserved=False):
         for n in ((2,) if tier == 'quick' else (1, 2, 3)):
             if ns >= 2 and n == 3: continue
             obs.append(layout_ob(prop, lid, lst, nelem=n, reserved=int(reserved), maxspan=(65535 if tier == 'quick' or ns < 2 else 255)))
+    # shaped lists: [span of small objects / low alignment][plain whose size is a multiple of the later alignment][aligned field].
+    # This is the shape on which the compile-time trailing-alignment bookkeeping decides whether a run-time alignment is skipped.
+    shapes = []
+    for ka in 'VF':
+        for (sa, aa) in [(2, 1), (1, 1), (4, 2), (1, 4)]:
+            for (sb, ab) in [(16, 1), (12, 1), (4, 1), (16, 2)]:
+                for (kc, sc, ac) in [('P', 4, 8), ('P', 4, 16), ('F', 2, 8), ('P', 2, 4)]:
+                    shapes.append((((ka, sa, aa), ('P', sb, ab), (kc, sc, ac)), 'usize'))
+    random.Random(3).shuffle(shapes)
+    for combo, cnt in (shapes[:14] if tier == 'quick' else shapes):
+        obs.append(layout_ob(prop, family_name(combo, cnt), family_list(combo, cnt), nelem=2, reserved=int(reserved)))
     fam = family()
     rng = random.Random(1 if tier == 'quick' else seed)    # the quick selection is fixed, the thorough one follows VERIF_SEED
     rng.shuffle(fam)
@@ -298,7 +313,7 @@ def c05(tier, seed):
     obs = pool_layout('C05', tier, seed)
     lists = ['F1', 'V1', 'V2', 'M1'] if tier == 'quick' else TRIVIAL + ['N1', 'N2']
     obs += pool_copy('C05', lists, tier, akinds=('ae', 'st-ne', 'prop-ne') if tier == 'quick' else tuple(ALLOC_KINDS))
-    obs += pool_seq('C05', ['V1', 'F1'], tier, ops_filter=['OP_RESERVE'])
+    obs += pool_seq('C05', ['V1', 'V2', 'F1', 'M1', 'V4'] if tier == 'quick' else TRIVIAL + ['V4'], tier, ops_filter=['OP_RESERVE'])
     return obs
 
 
@@ -400,7 +415,7 @@ def pool_elem(prop, lists, akinds=('ae', 'st-ne', 'prop-ne')):
 
 
 def c12(tier, seed):
-    return pool_elem('C12', ['F1', 'V1', 'M1', 'N1', 'N2'] if tier == 'quick' else CORE)
+    return pool_elem('C12', ['F1', 'V1', 'V4', 'M1', 'N1', 'N2'] if tier == 'quick' else CORE + ['V4'])
 
 
 def cmp_ob(prop, lid, part, domain=0, smax=None, kv=2):
@@ -506,8 +521,10 @@ def c18(tier, seed):
 def c19(tier, seed):
     obs = []
     for lid in CORE:
-        d = [f'-DLIST={LISTS[lid]}', f"-DK0={2 if tier == 'quick' or lid in TWO_SPAN else 3}"] + (['-DSMAX=1'] if lid in TWO_SPAN else [])
-        obs.append(dict(prop='C19', name=f"const/{lid}", harness='h_const.cpp', defines=d, entry='h_entry', cfg=dict(slack='min', budget_s=900), list=lid))
+        for with_elem in (0, 1):
+            d = [f'-DLIST={LISTS[lid]}', f"-DK0={2 if tier == 'quick' or lid in TWO_SPAN else 3}", f'-DWITH_ELEM={with_elem}'] + (['-DSMAX=1'] if lid in TWO_SPAN else [])
+            obs.append(dict(prop='C19', name=f"const/{lid}/{'elem' if with_elem else 'vec'}", harness='h_const.cpp', defines=d, entry='h_entry',
+                            cfg=dict(slack='min', budget_s=900), list=lid))
     return obs
 
 
